@@ -214,7 +214,7 @@ var statusNames = []string{"new", "master", "info", "details", "details_retry", 
 //	SV,<addr>,<queryport>,<status>,<version>,<refreshedNs|z>,<info>,<details>   servers:items, by (ip, port)
 //	UP,<addr>,<score>   RF,<addr>,<score>                                       by (ip, port)
 //	ST,<bit>,<addr>                                                             bits in ds.Members() order, then (ip, port)
-//	LK,<addr>,<ttlms|nottl>
+//	LK,<addr>,<ttl|nottl>
 //	IN,<idhex>,<ip:port>   IU,<idhex>,<score>                                   by id
 //	PI,<n>,<addr>,<port>,<goal>,<retries>,<max>,<expiresNs|z>   PQ,<n>,<score>  n: rank by (score, payload text)
 //	XX,<key>                                                                    any other key
@@ -307,7 +307,7 @@ func (w *World) Dump() []string {
 		ttl := mr.TTL("servers:lock:" + a)
 		t := "nottl"
 		if ttl > 0 {
-			t = strconv.FormatInt(ttl.Milliseconds(), 10)
+			t = "ttl"
 		}
 		out = append(out, "LK,"+a+","+t)
 	}
